@@ -66,6 +66,17 @@ def gen(rng):
             if vs == '1.0' and e.get('senses') and not e.get('frames'):
                 e['frames'] = [{'subcategorizationFrame': 'v2 only ' + e['id']}]
         ops.append({'k': 'add', 'res': docs.resource([a2], vs)})
+    if not clash and rng.random() < 0.4:
+        # a lexicon installed after the database has been looked at, bringing lookup values (lexfile names,
+        # relation types) the database has not seen yet; it is exported with the others
+        z = g.lexicon('z', '1', vs, n_syn=rng.randint(2, 3), n_ent=2)
+        for i, y in enumerate(z.get('synsets', [])):
+            if vs != '1.0':
+                y['lexfile'] = f'late.lexfile{i % 2}'
+            y.setdefault('relations', []).append({'target': z['synsets'][0]['id'], 'relType': 'late_reltype', 'meta': None})
+        ops.append({'k': 'add', 'res': docs.resource([z], vs)})
+        ops.append({'k': 'obs'})
+        lexs = lexs + [z]
     spec = ' '.join(f"{lx['id']}:{lx['version']}" for lx in lexs)
     for v in VERSIONS:
         ops.append({'k': 'export', 'lexicons': spec, 'v': v})
@@ -261,7 +272,7 @@ def judge(ctx, sc, im, mo):
     if isinstance(im, dict):
         ctx.fail('scenario-runs', sc, im)
         return
-    docs_ = {f"{lx['id']}:{lx['version']}": lx for lx in sc['ops'][0]['res']['lexicons']}
+    docs_ = {f"{lx['id']}:{lx['version']}": lx for op in sc['ops'] if op['k'] == 'add' for lx in op['res']['lexicons']}
     vs = sc['source_version']
     base_obs = im[1]
     for k, op in enumerate(sc['ops']):
@@ -270,7 +281,8 @@ def judge(ctx, sc, im, mo):
         rec = im[k]
         v = op['v']
         specs = op['lexicons'].split()
-        small = {'ops': [sc['ops'][0], op], 'source_version': vs}
+        small = {'ops': [o for o in sc['ops'][:k] if o['k'] in ('add', 'obs')] + [op], 'source_version': vs, 'clash': sc['clash']}
+        base_obs = ([im[j] for j in range(k) if sc['ops'][j]['k'] == 'obs'] or [im[1]])[-1]
         ctx.dist['export=' + v] += 1
         ctx.dist['source=' + vs] += 1
         several = len(specs) > 1
